@@ -6,10 +6,11 @@ database, every request and every iteration order of the Python sets).
 Tie: the real algorithm_lookup on a recording buffer in batch / plain / verbose / coloured modes and the real main(['--lookup', …]) captured
 in-process, against the model (`lookup.run`, `lookup.main`): every buffer entry, the return value, the sets, the not-found list and the suggestions.
 Oracle (no model involved), on what the real code printed:
-  (a) the names in the section of category c == the requested names that are keys of c (nothing merged, dropped or invented);
+  (a) the names in the section of category c == the requested names that are keys of c — for kex also the requested gss-<method>-<suffix> names whose
+      gss-<method>-* form is a key (the audit's rule; D38, repaired) — nothing merged, dropped or invented;
   (b) cross-view: the notes lookup prints for (c, name) == the notes the real output() prints for that name in a real audit rendering (random position, random
       neighbours), and a name lookup calls unknown is called unknown by the audit too;
-  (c) the requested names that are in no category == the names listed (with out.fail) as not found; none of them has an algorithm line;
+  (c) the requested names that are in no category (and are not such gss names) == the names listed (with out.fail) as not found; none of them has an algorithm line;
   (d) the suggestions == {unknown --> (c) key : unknown.casefold() in key.casefold()};
   (e) return value 3 / 2 / 0 by what was printed (an unknown name or a [fail] note: 3; else a [warn] note: 2), and main() exits with it and prints the same text.
 """
@@ -26,13 +27,13 @@ MODULE = 'SshAudit.Props.C03Lookup'
 NAMESPACE = 'SshAudit.C03Lookup'
 THEOREMS = ['sections_categories', 'section_content', 'printed_iff', 'in_every_category', 'printed_once', 'line_shape',
             'notes_are_algTexts', 'notes_eq_audit', 'notes_eq_audit_unmeasured', 'notes_request_free', 'unknown_line_only_gss', 'known_in_audit',
-            'audit_known_lookup_unknown', 'audit_known_lookup_known_partial',
+            'audit_known_covers', 'audit_known_is_found', 'audit_known_iff_lookup_known', 'audit_known_iff_found', 'gss_instance_line',
             'not_found_iff', 'not_found_list', 'unknown_never_printed', 'known_never_listed', 'requested_accounted', 'unknown_flagged_fail',
             'similar_iff', 'similar_rule', 'similar_only_unknown', 'similar_text', 'similar_implies_not_found',
             'status_values', 'status_three_iff', 'status_two_iff', 'status_zero_iff', 'status_unknown', 'status_is_fold', 'status_order_free',
             'requested_join', 'requested_nonempty', 'empty_item_unknown', 'empty_item_suggests_all', 'case_variant_unknown_suggested', 'repeats_kept', 'found_depends_on_set',
             'entries_eq_closed', 'run_ok_iff', 'json_flag_ignored', 'main_dispatch', 'main_stdout', 'main_ignores_batch_level',
-            'gen_has_cats', 'gen_no_blank_keys', 'gen_keys_nodup', 'gen_keys_normal', 'gen_never_unknown_line', 'gen_multi_category', 'gen_gss_instance_unknown']
+            'gen_has_cats', 'gen_no_blank_keys', 'gen_keys_nodup', 'gen_keys_normal', 'gen_never_unknown_line', 'gen_multi_category', 'gen_not_found_iff_audit_unknown', 'gen_gss_instance_known']
 
 HOW = 'harness/props/ext/C03_lookup.py: real algorithm_lookup() / main() / output() in-process'
 CATS = rc.CATS
@@ -113,6 +114,11 @@ def quiet_peer(c, lst):
     return rc.mk_peer(base['kex'], base['key'], base['enc'], base['mac'])
 
 
+def gss_covered(db, name):
+    """the audit's rule for key exchanges (output_algorithm): gss-<method>-<suffix> is rated from the entry gss-<method>-*"""
+    return name.startswith('gss-') and (name[:name.rindex('-')] + '-*') in db['kex']
+
+
 def gss_key(cat, name):
     if cat == 'kex' and name.startswith('gss-'):
         return name[:name.rindex('-')] + '-*'
@@ -147,7 +153,7 @@ def oracle_case(arg, res, db, r, audits, reverse_budget=3):
     parsed = res['parsed']
     # (a) sections
     for c in CATS:
-        want = sorted(set(n for n in names if n in db[c]))
+        want = sorted(set(n for n in names if n in db[c] or (c == 'kex' and gss_covered(db, n))))
         got = sorted(set(x[0] for x in parsed['algs'][c]))
         if got != want:
             fail('lookup_section_names', {'category': c, 'shown': got[:12]}, want[:12], category=c)
@@ -157,7 +163,7 @@ def oracle_case(arg, res, db, r, audits, reverse_budget=3):
     known = set()
     for c in CATS:
         known |= set(db[c])
-    want_nf = [n for n in names if n not in known]
+    want_nf = [n for n in names if n not in known and not gss_covered(db, n)]
     if sorted(set(parsed['nf'])) != sorted(set(want_nf)):
         fail('lookup_not_found_list', {'listed': sorted(set(parsed['nf']))[:12]}, sorted(set(want_nf))[:12])
     # (d) suggestions
@@ -177,7 +183,7 @@ def oracle_case(arg, res, db, r, audits, reverse_budget=3):
             other = rc.parse_alg_records([(lvl, re.sub('\x1b\\[0(;[0-9][0-9])?m', '', s_), a, i) for lvl, s_, a, i in res[view]['records'] if i], verbose=VIEWS[view][1])
             for c in CATS:
                 a = sorted([x[0].rstrip(' '), x[1]] for x in other[c])
-                b = sorted([x[0], x[1]] for x in parsed['algs'][c])
+                b = sorted([x[0].rstrip(' '), x[1]] for x in parsed['algs'][c])     # the column padding cannot be told from blanks at the end of a name
                 if a != b:
                     fail('lookup_notes_differ_between_modes', {'mode': view, 'category': c, 'lines': a[:2]}, b[:2], category=c)
     # (b) cross-view with a real audit rendering
@@ -189,7 +195,7 @@ def oracle_case(arg, res, db, r, audits, reverse_budget=3):
             if not got or any(g != notes for g in got):
                 fail('lookup_notes_differ_from_audit', {'category': c, 'name': name, 'lookup': notes, 'audit': got, 'audit_list': lst}, 'the same notes in both views', category=c)
     seen = 0
-    for u in dict.fromkeys(want_nf):
+    for u in dict.fromkeys(parsed['nf']):            # what the implementation itself lists as unknown must be unknown to the audit as well (D38)
         if seen >= reverse_budget or u.strip() == '' or len(u) > 400:
             continue
         seen += 1
@@ -357,6 +363,10 @@ def gen_args(ctx, db, multi):
 def corpus(db, multi):
     allnames = [k for c in CATS for k in db[c]]
     return [
+        'gss-group14-sha256-toWM5Slw5Ew8Mqkay+al2g==',            # D38 (repaired): the audit rates it from gss-group14-sha256-*, --lookup called it unknown
+        'gss-gex-sha1-vz8J1E9PzLr8b1K+0remTg==', 'gss-group1-sha1-a/b+c/d==', 'gss-nistp256-sha256-+/+/=', 'gss-curve25519-sha256-=', 'gss-group16-sha512-',
+        'gss-group14-sha256-*', 'gss-group14-sha256-*,gss-group14-sha256-x,gss-group14-sha256-x,gss-group14-sha256-y', 'gss-', 'gss-x', 'gss-*', 'gss', 'gss-group14-sha256',
+        'gss-group14-sha256-a-b', 'GSS-group14-sha256-x', ' gss-group14-sha256-x', 'gss-group14-sha256-x ', 'gss-13.3.132.0.10-sha256-Zz09+/==,nosuch,ssh-rsa',
         'ssh-rsa', 'none', 'aes128-gcm,aes256-gcm', ','.join(multi), 'ssh-ed25519,curve25519-sha256,aes256-ctr,hmac-sha2-256',
         'gss-group14-sha256-*', 'gss-group14-sha256-toWM5Slw5Ew8Mqkay+al2g==', 'gss-group14-sha256-*,gss-group14-sha256-toWM5Slw5Ew8Mqkay+al2g==', 'gss-', 'gss-group14',
         ',', 'ssh-rsa,', ',ssh-rsa', 'ssh-rsa,,ssh-dss', ' ', ' ssh-rsa', 'ssh-rsa ', 'ssh-rsa, ssh-dss', 'ssh-rsa\t',
@@ -422,7 +432,7 @@ def run(ctx):
             mismatches.append({'stream': 'lookup.run', 'op': 'lookup.run … %r' % arg[:120], 'model': d[:3], 'impl': {'arg': arg[:200]}})
     # main()
     mlines, mexpect = [], []
-    margs = corpus(db, multi)[:44] + [None, ''] + r.sample(singles, ctx.scale(12, 80)) + r.sample(args[-ctx.scale(110, 1500):], ctx.scale(30, 300))
+    margs = corpus(db, multi)[:62] + [None, ''] + r.sample(singles, ctx.scale(12, 80)) + r.sample(args[-ctx.scale(110, 1500):], ctx.scale(30, 300))
     for i, arg in enumerate(margs):
         for flags in ([MAIN_FLAGS[i % len(MAIN_FLAGS)]] + ([MAIN_FLAGS[(i * 7 + 3) % len(MAIN_FLAGS)]] if i % 3 == 0 else [])):
             if arg is None and not flags.get('tail'):
